@@ -422,89 +422,7 @@ func checkRangeMasks(c *Ctx, r *Report) {
 func checkContainerGuards(c *Ctx, r *Report) {
 	r.Rule("M-GUARD", "the argument-checked operations reject exactly the invalid arguments before touching storage: BitArray.SetRange/IsRange (end < start, start < 0, end > size), AppendBits (width outside 0..32), BitMatrix.Get (outside the matrix), SetRegion (negative origin, empty or overhanging region), NewBitMatrix (dimension < 1), Xor (size / dimension mismatch)", 6)
 	foldGuards := func(rel, fn, key string, n int, domain [][]int64, hooksFor func(p *packages.Package) *rpf, invalid func(a []int64) bool) {
-		fd, p := c.funcDeclOf(rel, fn)
-		if fd == nil {
-			r.AnchorLost("M-GUARD", key, "function not found")
-			return
-		}
-		r.Analysed(key)
-		ps := paramObjs(p, fd)
-		// leading if-statements that return (the guards)
-		var guards []*ast.IfStmt
-		for _, st := range fd.Body.List {
-			ifs, ok := st.(*ast.IfStmt)
-			if ok && terminates(ifs.Body.List) {
-				guards = append(guards, ifs)
-				continue
-			}
-			if _, isAssign := st.(*ast.AssignStmt); isAssign {
-				continue // right := left + width etc.
-			}
-			break
-		}
-		bad := ""
-		var walk func(i int, cur []int64)
-		walk = func(i int, cur []int64) {
-			if bad != "" {
-				return
-			}
-			if i == n {
-				env := map[types.Object]*Val{}
-				for k := 0; k < n; k++ {
-					env[ps[k]] = vint(cur[k])
-				}
-				h := hooksFor(p)
-				// fold the straight-line prefix with guards
-				rr := &rpf{c: c, p: p, env: env, callHook: h.callHook, selHook: h.selHook}
-				fired := false
-				func() {
-					defer func() {
-						if y := recover(); y != nil {
-							if re, ok := y.(*rpfErr); ok {
-								bad = "?" + re.Error()
-								return
-							}
-							panic(y)
-						}
-					}()
-					for _, st := range fd.Body.List {
-						switch x := st.(type) {
-						case *ast.IfStmt:
-							if !terminates(x.Body.List) {
-								return
-							}
-							cv := rr.expr(x.Cond)
-							if cv.K == VBool && cv.B {
-								// a valid early return (e.g. empty range) is not a rejection
-								fired = blockReturnsError(p, x.Body.List, nil) || returnsFalseOnly(x.Body.List)
-								return
-							}
-						case *ast.AssignStmt:
-							if x.Tok != token.DEFINE {
-								return
-							}
-							rr.stmt(x)
-						default:
-							return
-						}
-					}
-				}()
-				if bad == "" && fired != invalid(cur) {
-					bad = fmt.Sprintf("arguments %v: rejected=%v, contract says %v", cur, fired, invalid(cur))
-				}
-				return
-			}
-			for _, v := range domain[i] {
-				walk(i+1, append(append([]int64{}, cur...), v))
-			}
-		}
-		walk(0, nil)
-		_ = guards
-		if bad != "" && bad[0] == '?' {
-			r.Undecided("M-GUARD", key, c.pos(fd.Pos()), bad[1:])
-		} else {
-			r.Check(bad == "", "M-GUARD", key, c.pos(fd.Pos()), bad)
-		}
+		foldArgGuards(c, r, "M-GUARD", rel, fn, key, n, domain, hooksFor, invalid)
 	}
 	small := []int64{-2, -1, 0, 1, 5, 9, 10, 11, 12}
 	arrHooks := func(p *packages.Package) *rpf { return (&wordModel{words: map[int64]uint32{}}).hooks(p, 0, 0, 0, 10, 1) }
@@ -780,4 +698,92 @@ func contains(s, sub string) bool {
 		}
 	}
 	return false
+}
+
+// foldArgGuards folds the leading guard statements of a function over a grid of argument values and compares
+// "an error return fired" with the contract predicate.
+func foldArgGuards(c *Ctx, r *Report, rule, rel, fn, key string, n int, domain [][]int64, hooksFor func(p *packages.Package) *rpf, invalid func(a []int64) bool) {
+	fd, p := c.funcDeclOf(rel, fn)
+	if fd == nil {
+		r.AnchorLost(rule, key, "function not found")
+		return
+	}
+	r.Analysed(key)
+	ps := paramObjs(p, fd)
+	// leading if-statements that return (the guards)
+	var guards []*ast.IfStmt
+	for _, st := range fd.Body.List {
+		ifs, ok := st.(*ast.IfStmt)
+		if ok && terminates(ifs.Body.List) {
+			guards = append(guards, ifs)
+			continue
+		}
+		if _, isAssign := st.(*ast.AssignStmt); isAssign {
+			continue // right := left + width etc.
+		}
+		break
+	}
+	bad := ""
+	var walk func(i int, cur []int64)
+	walk = func(i int, cur []int64) {
+		if bad != "" {
+			return
+		}
+		if i == n {
+			env := map[types.Object]*Val{}
+			for k := 0; k < n; k++ {
+				env[ps[k]] = vint(cur[k])
+			}
+			h := hooksFor(p)
+			// fold the straight-line prefix with guards
+			rr := &rpf{c: c, p: p, env: env, callHook: h.callHook, selHook: h.selHook}
+			fired := false
+			func() {
+				defer func() {
+					if y := recover(); y != nil {
+						if re, ok := y.(*rpfErr); ok {
+							bad = "?" + re.Error()
+							return
+						}
+						panic(y)
+					}
+				}()
+				for _, st := range fd.Body.List {
+					switch x := st.(type) {
+					case *ast.IfStmt:
+						if !terminates(x.Body.List) {
+							return
+						}
+						cv := rr.expr(x.Cond)
+						if cv.K == VBool && cv.B {
+							// a valid early return (e.g. empty range) is not a rejection
+							fired = blockReturnsError(p, x.Body.List, nil) || returnsFalseOnly(x.Body.List)
+							return
+						}
+					case *ast.AssignStmt:
+						if x.Tok != token.DEFINE {
+							return
+						}
+						rr.stmt(x)
+					default:
+						return
+					}
+				}
+			}()
+			if bad == "" && fired != invalid(cur) {
+				bad = fmt.Sprintf("arguments %v: rejected=%v, contract says %v", cur, fired, invalid(cur))
+			}
+			return
+		}
+		for _, v := range domain[i] {
+			walk(i+1, append(append([]int64{}, cur...), v))
+		}
+	}
+	walk(0, nil)
+	_ = guards
+	if bad != "" && bad[0] == '?' {
+		r.Undecided(rule, key, c.pos(fd.Pos()), bad[1:])
+	} else {
+		r.Check(bad == "", rule, key, c.pos(fd.Pos()), bad)
+	}
 }
